@@ -157,5 +157,8 @@ def run(res, replay=None, inflate=False):
     if not ok_proof:
         proof_failure_violation(res, found)
     return res.finish(trusted=[
+        "translator harness/srcexprs.py: clang 14's typed AST (-ast-dump=json, -std=c++17, this host's target) of the byteswap(uint16/32/64) overloads (the builtin is given the meaning Bytes.byteswap), "
+        "instantiated in a generated unit, copied node by node into CExpr.v terms (coq/SrcExprs.v, regenerated on every run); "
+        "trusted: clang's parse and the types it assigns, the one-to-one node mapping, CExpr.ceval as the meaning of a node",
         "Msg.v/Layout.v hand-written model of sbepp.hpp navigation and sbeppc layout, tied by differential runs",
         "harness/msggen.py, harness/msgdrv.py, cpp/msg_harness.hpp; extraction: ExtrOcamlBasic only"])
